@@ -102,6 +102,20 @@ func c03(c *core.Ctx) string {
 	c03WriteOut(c)
 	c03Cache(c)
 	c03Readers(c)
+	// shared rules: a response whose body could not be fetched is not published (R-C07-5), and a stream body is not re-sent (R-C10-3)
+	c.Alias("R-C07-5", "R-C03-10")
+	c.Rule("R-C07-5", "well-framed or withheld: a backend response is handed to the pipeline only after its body was fetched completely; a failed fetch returns the error without publishing the half-read response (shared with R-C07-5)")
+	c07Resp(c)
+	c.Alias("R-C07-5", "")
+	c.Alias("R-C10-3", "R-C03-11")
+	c.Alias("R-C10-2", "-")
+	c.Alias("R-C10-5", "-")
+	c.Rule("R-C10-3", "the backend receives the client's body: a one-shot stream body is never re-sent by the retry wrapper (shared with R-C10-3)")
+	c10Handle(c)
+	c.Alias("R-C10-3", "")
+	c.Alias("R-C10-2", "")
+	c.Alias("R-C10-5", "")
+	c.Drop("-")
 	return "Structural necessary conditions of faithful forwarding, decided on every path of the anchored functions: the outbound header is a clone from which the nine hop-by-hop headers and every Connection-listed header are removed (path-sensitive, with per-iteration checks of the loops, through helper functions); method/URL/query/body/header/Host of the outbound request come from the inbound request according to the stated decision tables; every replacement of a response payload or body is paired with re-establishing Content-Length on all paths (all SetPayload sites and gzip Body swaps in the module); the mux write-out copies header, status and payload of one response in order on every exit. Not decided: byte-level equality, wire framing, URL re-encoding."
 }
 
